@@ -23,9 +23,9 @@ def register(reg):
                  returns=Tuple(List(KStr), KBytes, Real), assumes_inv=False, maintains_inv=False,
                  trusted='A-CALLEE: SessionManager._merkle_branch returns the C12 branch/root of tx_hashes at tx_pos (direct path '
                          'below 200 hashes, MerkleCache above; bounded stand-in of C12)')
-    reg.contract(SM + '.merkle_branch_for_tx_pos', params={'height': Int, 'tx_pos': Int},
+    reg.contract(SM + '.merkle_branch_for_tx_pos', params={'height': Int, 'tx_pos': Int}, returns=Tuple(List(KStr), KStr, Real),
                  requires=['height >= 0', 'tx_pos >= 0'], raises={'RPCError': []},
                  ensures=[('position-in-block', 'True')], props=['C11', 'C16'])
-    reg.contract(SM + '.merkle_branch_for_tx_hash', params={'height': Int, 'tx_hash': KBytes},
+    reg.contract(SM + '.merkle_branch_for_tx_hash', params={'height': Int, 'tx_hash': KBytes}, returns=Tuple(List(KStr), Int, Real),
                  requires=['height >= 0'], raises={'RPCError': []},
                  ensures=[('position-of-that-hash', 'result[1] >= 0')], props=['C11', 'C16'])
